@@ -13,8 +13,13 @@ Import ListNotations.
 Definition label := nat.
 Definition flowid := nat.
 
+(* why a head rests: BMatch = match on an external event (nothing inside the same run_to_completion
+   can satisfy it); BAction = action send (the head is actionable and is advanced again by the outer
+   loop of the same run); BMerge = MergeHeads *)
+Inductive bkind := BMatch | BAction | BMerge.
+
 Inductive elem : Type :=
-| EBlock                          (* match on an external event, action send (actionable), MergeHeads: slide stops *)
+| EBlock (k : bkind)              (* slide stops *)
 | EWaitInt (started_making : bool) (* match on an internal event (FlowStarted/FlowFinished/...): slide stops;
                                       started_making = false for the expansion-internal matches (info["internal"]) *)
 | EWaitHeads                      (* WaitForHeads: passes when enough heads arrived, else slide stops *)
@@ -68,7 +73,7 @@ Definition exec_elem (es : list elem) (o : outcome) (pos : nat) (cs : list label
   | ORaise => Stop (Raised pos)
   | _ =>
     match e with
-    | EBlock => Stop (Blocked pos)
+    | EBlock _ => Stop (Blocked pos)
     | EWaitInt _ => Stop (Blocked pos)
     | EWaitHeads => match o with OTrue => Cont (S pos) cs None false | _ => Stop (Blocked pos) end
     | EJump l c =>
@@ -132,94 +137,148 @@ Definition slide (fuel : nat) (es : list elem) (orc : nat -> outcome) (pos : nat
 
 (* ------------------------------------------------------------------------------------------ *)
 (* The premise, intra-flow part: every cycle of the jump graph passes a blocking element.
-   succs = static over-approximation of the positions at which the SAME slide may continue. *)
+   Decided like a bytecode verifier: a static catch-stack per position (`stk`) that every step of
+   the model respects, and a ranking (`rank`) that strictly decreases along every step that the
+   SAME slide can take.  Both are computed below and then CHECKED; the theorems only rely on the
+   check. *)
 
-Fixpoint catch_labels (es : list elem) : list label :=
-  match es with
-  | [] => []
-  | ECatch (Some l) :: es' => l :: catch_labels es'
-  | _ :: es' => catch_labels es'
-  end.
-
-Definition target (es : list elem) (pos : nat) (l : label) : nat :=
-  match label_pos es l with Some i => S i | None => S pos end.
-
-Definition opt_targets (es : list elem) (ls : list label) : list nat :=
-  flat_map (fun l => match label_pos es l with Some i => [S i] | None => [] end) ls.
-
-(* `through_int`: are matches on internal events crossed (cascade view) or blocking (slide view)? *)
-Definition succs_gen (through_int : bool) (es : list elem) (pos : nat) : list nat :=
-  match nth_error es pos with
-  | None => []
-  | Some e =>
-    match e with
-    | EBlock => []
-    | EWaitInt _ => if through_int then [S pos] else []
-    | EWaitHeads => [S pos]
-    | EJump l c => target es pos l :: (if c then [S pos] else [])
-    | ELabel _ _ | EStep | EStart _ _ | ECatch _ | EBreak None => [S pos]
-    | EFork ls => if through_int then opt_targets es ls else []
-    | EReturn => []
-    | EAbort => opt_targets es (catch_labels es)
-    | EBreak (Some l) => opt_targets es [l]
-    end
-  end.
-Definition succs := succs_gen false.
-
-(* a ranking certificate: rank strictly decreases along every edge, ranks bounded by the length *)
+Definition stk_at (stk : list (option (list label))) (p : nat) : option (list label) := nth p stk None.
 Definition rank_at (r : list nat) (p : nat) : nat := nth p r 0.
 
-Definition edge_ok (es : list elem) (r : list nat) (p q : nat) : bool :=
-  Nat.ltb (rank_at r (Nat.min q (length es))) (rank_at r p).
+Fixpoint eqb_labels (a b : list label) : bool :=
+  match a, b with
+  | [], [] => true
+  | x :: a', y :: b' => Nat.eqb x y && eqb_labels a' b'
+  | _, _ => false
+  end.
 
-Definition check_rank_gen (ti : bool) (es : list elem) (r : list nat) : bool :=
-  Nat.eqb (length r) (S (length es)) &&
-  forallb (fun p => Nat.leb (rank_at r p) (length es) &&
-                    forallb (edge_ok es r p) (succs_gen ti es p)) (seq 0 (length es)).
-Definition check_rank := check_rank_gen false.
+(* configurations the same slide can continue with after executing the element at p *)
+Definition conts (es : list elem) (s : list label) (p : nat) (e : elem) : list (nat * list label) :=
+  flat_map (fun o => match exec_elem es o p s e with
+                     | Cont p' s' _ _ => [(p', s')]
+                     | Stop _ => []
+                     end) [OTrue; OFalse].
 
-(* computing a certificate: reverse Gauss-Seidel relaxation of "longest path to a sink", repeated *)
+(* where a head that stopped at p is advanced from later (`_advance_head_front`: position += 1;
+   forked heads start behind their label with a copy of the stack) *)
+Definition resumes (es : list elem) (s : list label) (p : nat) (e : elem) : list (nat * list label) :=
+  match e with
+  | EBlock _ | EWaitInt _ | EWaitHeads => [(S p, s)]
+  | EFork ls => flat_map (fun l => match label_pos es l with Some i => [(S i, s)] | None => [] end) ls
+  | _ => []
+  end.
+
+(* can the stop at this element be left again inside the same run_to_completion? *)
+Definition wakes (e : elem) : bool :=
+  match e with
+  | EBlock BMatch => false
+  | EBlock _ | EWaitInt _ | EWaitHeads | EFork _ => true
+  | _ => false
+  end.
+
+(* through_int = false: steps of one slide; true: steps of one event cascade *)
+Definition succ_cfg (through_int : bool) (es : list elem) (stk : list (option (list label))) (p : nat)
+  : list (nat * list label) :=
+  match nth_error es p, stk_at stk p with
+  | Some e, Some s => conts es s p e ++ (if through_int && wakes e then resumes es s p e else [])
+  | _, _ => []
+  end.
+
+Definition stk_ok (es : list elem) (stk : list (option (list label))) (q : nat) (s : list label) : bool :=
+  Nat.leb (length es) q ||
+  match stk_at stk q with Some s' => eqb_labels s' s | None => false end.
+
+Definition check_pos (ti : bool) (es : list elem) (r : list nat) (stk : list (option (list label))) (p : nat) : bool :=
+  match nth_error es p, stk_at stk p with
+  | Some e, Some s =>
+      Nat.leb (rank_at r p) (length es) &&
+      forallb (fun qs => Nat.ltb (rank_at r (Nat.min (fst qs) (length es))) (rank_at r p)) (succ_cfg ti es stk p) &&
+      forallb (fun qs => stk_ok es stk (fst qs) (snd qs)) (conts es s p e ++ resumes es s p e)
+  | _, _ => true
+  end.
+
+Definition check_cert (ti : bool) (es : list elem) (r : list nat) (stk : list (option (list label))) : bool :=
+  forallb (check_pos ti es r stk) (seq 0 (length es)).
+
+(* ---- computing the static stacks: forward propagation from (0, []) until nothing changes *)
+Fixpoint set_opt {A} (l : list (option A)) (n : nat) (a : A) : list (option A) :=
+  match l, n with
+  | [], _ => []
+  | None :: l', O => Some a :: l'
+  | x :: l', O => x :: l'
+  | x :: l', S n' => x :: set_opt l' n' a
+  end.
+
+Definition stk_pass (es : list elem) (stk : list (option (list label))) : list (option (list label)) :=
+  fold_left (fun st p =>
+               match nth_error es p, stk_at st p with
+               | Some e, Some s => fold_left (fun st' qs => set_opt st' (fst qs) (snd qs))
+                                             (conts es s p e ++ resumes es s p e) st
+               | _, _ => st
+               end) (seq 0 (length es)) stk.
+
+Definition count_some {A} (l : list (option A)) : nat :=
+  length (filter (fun x => match x with Some _ => true | None => false end) l).
+
+Fixpoint stk_iter (fuel : nat) (es : list elem) (stk : list (option (list label))) : list (option (list label)) :=
+  match fuel with
+  | O => stk
+  | S f => let stk' := stk_pass es stk in
+           if Nat.eqb (count_some stk') (count_some stk) then stk' else stk_iter f es stk'
+  end.
+
+Definition compute_stk (es : list elem) : list (option (list label)) :=
+  stk_iter (S (length es)) es (Some [] :: repeat None (length es)).
+
+(* ---- computing a ranking: reverse Gauss-Seidel relaxation of "longest path to a sink" *)
 Definition lookup_rank (old acc : list nat) (p q len : nat) : nat :=
   let q := Nat.min q len in
   if Nat.ltb p q then nth (q - p - 1) acc 0 else nth q old 0.
 
-Fixpoint gs_pass (ti : bool) (es : list elem) (old : list nat) (len : nat) (n : nat) (acc : list nat) : list nat :=
+Fixpoint gs_pass (sf : nat -> list nat) (old : list nat) (len : nat) (n : nat) (acc : list nat) : list nat :=
   (* n = number of positions still to process; current position p = n - 1; acc = ranks of p+1 .. len *)
   match n with
   | O => acc
   | S p =>
-      let qs := succs_gen ti es p in
+      let qs := sf p in
       let v := match qs with
                | [] => 0
                | _ => S (fold_left (fun m q => Nat.max m (lookup_rank old acc p q len)) qs 0)
                end in
-      gs_pass ti es old len p (v :: acc)
+      gs_pass sf old len p (v :: acc)
   end.
 
-Fixpoint iter_rank (ti : bool) (fuel : nat) (es : list elem) (r : list nat) : list nat :=
+Fixpoint iter_rank (ti : bool) (fuel : nat) (es : list elem) (stk : list (option (list label))) (r : list nat) : list nat :=
   match fuel with
   | O => r
   | S f =>
-      if check_rank_gen ti es r then r
-      else iter_rank ti f es (gs_pass ti es r (length es) (length es) [0])
+      if check_cert ti es r stk then r
+      else iter_rank ti f es stk
+                     (gs_pass (fun p => map fst (succ_cfg ti es stk p)) r (length es) (length es) [0])
   end.
 
-Definition compute_rank_gen (ti : bool) (es : list elem) : list nat :=
-  iter_rank ti (S (length es)) es (repeat 0 (S (length es))).
+Definition compute_rank (ti : bool) (es : list elem) (stk : list (option (list label))) : list nat :=
+  iter_rank ti (S (length es)) es stk (repeat 0 (S (length es))).
 
-Definition guarded_flowb (es : list elem) : bool := check_rank es (compute_rank_gen false es).
+Definition guarded_flowb (es : list elem) : bool :=
+  let stk := compute_stk es in check_cert false es (compute_rank false es stk) stk.
 
 Definition program := list (list elem).
 Definition guardedb (p : program) : bool := forallb guarded_flowb p.
 
-(* sanity: `while c: match; step` is guarded, `while c: step` is not *)
+(* sanity: `while c: match; step` is guarded, `while c: step` is not; an `abort` behind a popped
+   catch label does not create a cycle *)
 Example ex_loop_guarded :
-  guarded_flowb [EBlock; ELabel 0 false; EJump 1 true; EBlock; EStep; EJump 0 false; ELabel 1 false; EStep] = true.
+  guarded_flowb [EWaitInt true; ELabel 0 false; EJump 1 true; EBlock BMatch; EStep; EJump 0 false; ELabel 1 false; EStep] = true.
 Proof. reflexivity. Qed.
 Example ex_loop_unguarded :
-  guarded_flowb [EBlock; ELabel 0 false; EJump 1 true; EStep; EJump 0 false; ELabel 1 false] = false.
+  guarded_flowb [EWaitInt true; ELabel 0 false; EJump 1 true; EStep; EJump 0 false; ELabel 1 false] = false.
+Proof. reflexivity. Qed.
+Example ex_catch_guarded :
+  guarded_flowb [EWaitInt true; ECatch (Some 0); EBlock BMatch; EJump 1 false; ELabel 0 false; EWaitHeads; ECatch None;
+                 EStep; EAbort; ELabel 1 false; ECatch None] = true.
 Proof. reflexivity. Qed.
 Example ex_slide_spins :
-  s_stop (slide 1000 [EBlock; ELabel 0 false; EJump 1 true; EStep; EJump 0 false; ELabel 1 false]
+  s_stop (slide 1000 [EWaitInt true; ELabel 0 false; EJump 1 true; EStep; EJump 0 false; ELabel 1 false]
                 (fun _ => OFalse) 1 []) = OutOfFuel.
 Proof. reflexivity. Qed.
